@@ -20,6 +20,7 @@ CLAIM = (
     "the IR (invariant descriptions, enumeration literal values, constant values, patterns, the XML namespace) reach generated code only "
     "through the target's literal functions, comparisons or error messages. The literal functions themselves are judged with the rule of C19 (CHR: per "
     "character class, forbidden characters never raw, only legal escapes), which is also run here."
+    " ENCLOSE: a literal emitted without its quotes (parts of an f-string) is escaped for the quote character the caller encloses it with (explicit quoting=)."
 )
 NOTE = (
     "Trusted base: the table of IR free-text attributes and of admissible consumers (sa/props/c20.py); the annotation-driven typer. Not "
